@@ -28,7 +28,7 @@ MANIFEST = dict(
 def gen_script(rng):
     """a fault script: phases + user resets; returns (phases, resets[(t, label)])"""
     kind = rng.choice(["healthy", "blackout-start", "blackout-mid", "blackout-mid-long", "rferr-mid", "handshake-loss", "reset-steady",
-                       "reset-in-connect", "reset-in-discovery", "reset-twice", "lossy-mid", "double-blackout", "slow-handshake-then-blackout"])
+                       "reset-in-connect", "reset-in-discovery", "reset-twice", "reset-in-last-retry", "lossy-mid", "double-blackout", "slow-handshake-then-blackout"])
     P, R = [], []
     if kind == "healthy":
         pass
@@ -51,6 +51,11 @@ def gen_script(rng):
         # threshold is crossed while the manager is still CONNECTING; the handshake completes all the same; the spa goes
         # dark the moment the manager says CONNECTED
         P = [("until:CONNECTED", f"noping+first:{rng.choice([7, 8, 9])}"), (rng.choice([300, 420]), "blackout")]
+    elif kind == "reset-in-last-retry":
+        # the handshake's first request gets no answer (blackout right after discovery); a user reset lands while its LAST retry is
+        # in flight: the abandoned attempt then reports "retry count exceeded" to a manager that has already dropped that spa
+        P = [(0.45, "healthy"), (75, "blackout")]
+        R = [(rng.choice([55.5, 57.0, 58.0, 59.5]), "last-retry")]
     elif kind == "reset-steady":
         R = [(rng.choice([10, 15.3, 22]), "steady")]
     elif kind == "reset-in-connect":
@@ -173,7 +178,8 @@ def to_inputs(res):
             out.append((t, "pump-"))
         elif ev == "CLIENT_FACADE_IS_READY":
             out.append((t, "pump+"))
-        elif ev == "CONNECTION_PROTOCOL_RETRY_COUNT_EXCEEDED":
+        elif ev == "CONNECTION_PROTOCOL_RETRY_COUNT_EXCEEDED" and st == "ERROR_NEEDS_ATTENTION":
+            # (reported by an ABANDONED attempt - the manager was reset meanwhile - it moves nothing and is no macro input)
             out.append((t, "pump~"))
         elif ev == "RUNNING_PING_NO_RESPONSE" and st == "ERROR_PING_MISSED":
             # delivered after the state was set: count it once, when the state flips
@@ -216,7 +222,7 @@ def run(ctx):
     nontrivial = set()
     scripts = []
     base_kinds = ["blackout-start", "blackout-mid-long", "reset-in-connect", "rferr-mid", "handshake-loss", "reset-steady",
-                  "slow-handshake-then-blackout", "reset-in-discovery", "reset-twice"]
+                  "slow-handshake-then-blackout", "reset-in-discovery", "reset-twice", "reset-in-last-retry"]
     for i in range(n):
         k, P, R = gen_script(rng)
         scripts.append((k, P, R))
